@@ -989,13 +989,25 @@ struct XWorld {
         return out;
     }
 
+    // "<letter>!" performs the operation although the library lets another party see the target (used by c20.py only when
+    // the model says that no other party can: then the sharing itself is the defect and its effect is what we want to see)
+    bool force = false;
+    bool shared_guard(int a, QPDFObjectHandle const& t, std::string& why) {
+        if (!shared(a, t)) return false;
+        if (force) return false;
+        why = "skip^shared";
+        return true;
+    }
+
     std::string step(std::string const& op) {
         auto f = split(op, ',');
         char k = f.at(0).at(0);
+        force = f.at(0).size() > 1 && f.at(0)[1] == '!';
         int d = f.size() > 1 ? std::stoi(f[1]) : -1;
         QPDF* q = doc(d);
         QPDFObjectHandle h, v;
         bool cross = false, c2 = false;
+        std::string why;
         switch (k) {
         case 'D': case 'F':
             if (d != ndocs || d == 0) return "skip";
@@ -1022,14 +1034,17 @@ struct XWorld {
             return "ok";
         case 'M':
             if (!q || !eval(d, f.at(2), h, false, cross)) return "skip";
-            if (h.isIndirect() || shared(d, h)) return "skip";
+            if (h.isIndirect()) return "skip";
+            if (shared_guard(d, h, why)) return why;
             q->makeIndirectObject(h);
             return "ok";
         case 'K': case 'A': case 'S': {
             std::string const& vx = f.at(k == 'K' ? 4 : (k == 'A' ? 3 : 4));
             if (!eval(d, f.at(2), h, false, cross) || !eval(d, vx, v, true, c2)) return "skip";
             std::vector<QPDFObjectHandle> cv; clos(v, FUEL, cv);
-            if (vx.find("/d") != std::string::npos || shared(d, h) || member(h, cv) || (c2 && !pure(v))) return "skip";
+            if (vx.find("/d") != std::string::npos || member(h, cv) || (c2 && !pure(v))) return "skip";
+            if (k == 'K' ? (f.at(3) == "L" || !h.isDictionary()) : (!h.isArray() || (k == 'S' && (std::stoi(f.at(3)) < 0 || std::stoi(f.at(3)) >= h.getArrayNItems())))) return "skip";
+            if (shared_guard(d, h, why)) return why;
             if (k == 'K') {
                 if (f.at(3) == "L" || !h.isDictionary()) return "skip";
                 h.replaceKey("/" + f.at(3), v);
@@ -1043,7 +1058,9 @@ struct XWorld {
             }
             return "ok"; }
         case 'R': case 'E': {
-            if (!eval(d, f.at(2), h, false, cross) || shared(d, h)) return "skip";
+            if (!eval(d, f.at(2), h, false, cross)) return "skip";
+            if (k == 'R' ? (f.at(3) == "L" || !h.isDictionary()) : (!h.isArray() || std::stoi(f.at(3)) < 0 || std::stoi(f.at(3)) >= h.getArrayNItems())) return "skip";
+            if (shared_guard(d, h, why)) return why;
             if (k == 'R') {
                 if (f.at(3) == "L" || !h.isDictionary()) return "skip";
                 h.removeKey("/" + f.at(3));
@@ -1066,7 +1083,8 @@ struct XWorld {
             roots[r] = {d, q->newStream(unhex(f.at(3)))};
             return "ok"; }
         case 'Z':
-            if (!eval(d, f.at(2), h, false, cross) || !h.isStream() || shared(d, h)) return "skip";
+            if (!eval(d, f.at(2), h, false, cross) || !h.isStream()) return "skip";
+            if (shared_guard(d, h, why)) return why;
             h.replaceStreamData(unhex(f.at(3)), QPDFObjectHandle(), QPDFObjectHandle());
             return "ok";
         case 'C': {
@@ -1102,7 +1120,8 @@ struct XWorld {
         case 'B': {
             auto it = held.find(std::stoi(f.at(3)));
             if (!eval(d, f.at(2), h, false, cross) || !h.isStream() || it == held.end()) return "skip";
-            if (shared(d, h) || it->second.given || it->second.opaque) return "skip";
+            if (it->second.given || it->second.opaque) return "skip";
+            if (shared_guard(d, h, why)) return why;
             h.replaceStreamData(it->second.buf, QPDFObjectHandle(), QPDFObjectHandle());
             it->second.given = true;
             return "ok"; }
